@@ -22,3 +22,11 @@ Print Assumptions C11_conc_progress.
 Theorem C11_unlocked_refuted : C11_unlocked_refuted_statement.
 Proof. exact C11_unlocked_refuted_proof. Qed.
 Print Assumptions C11_unlocked_refuted.
+
+(* over histories: a run-once function executes at most once over ANY history
+   of Calls and Redefines started with an empty memo table *)
+From ArgMapper Require Import HistoryStatements.
+From ArgMapper.proofs Require Import C0911Hist.
+Theorem C11_history : C11_history_statement.
+Proof. exact C11_history_proof. Qed.
+Print Assumptions C11_history.
